@@ -418,11 +418,12 @@ example :
   decide +kernel
 
 /-- CE14 an id starting with `//`, even with an empty context — real: expansion leaves `//a:b/c`
-alone and the final compaction against the empty base turns it into `b/c` -/
+alone and the final compaction against the empty base turns it into `b/c`; `absIri` itself excludes such ids
+(also from the context-free fragment: `norm` answers `none`) -/
 example :
     let ctx : Ctx := ⟨[], none, none⟩
-    ctx.spellOk = true ∧ absIri "//a:b/c" = true ∧ iriOk ctx "//a:b/c" = false ∧
-    expandDoc (withContext ctx (oneId "//a:b/c")) = none := by
+    ctx.spellOk = true ∧ absIri "//a:b/c" = false ∧ iriOk ctx "//a:b/c" = false ∧
+    expandDoc (withContext ctx (oneId "//a:b/c")) = none ∧ norm (oneId "//a:b/c") = none := by
   decide +kernel
 
 /-- CE15 an IRI Go does not take for absolute, under `@base` — real: error (same nil dereference) -/
